@@ -167,6 +167,15 @@ type Result struct {
 	Ops        int            // operations / invocations executed
 	Steps      int            // scheduler steps
 	Pinned     any            // optional: the same case with the violating fault made explicit (starting point for shrinking)
+	Picks      [][]int        // optional: the scheduler/dag choices of every controlled execution of the case, in order
+}
+
+// SchedPinner is implemented by scenarios whose schedules can be made explicit
+// (policy "picks") and then minimised pick by pick.
+type SchedPinner interface {
+	// PinSchedules returns a copy of c whose schedules are the explicit pick lists recorded in r, and
+	// pointers to those schedules inside the copy.
+	PinSchedules(c any, r *Result) (any, []*Sched)
 }
 
 func newResult() *Result { return &Result{Counters: map[string]int{}} }
